@@ -650,9 +650,17 @@ def _parse_source_for_lambda(
         # Grab all the lambdas on a single line
         lambdas_on_a_line = defaultdict(list)
         saw_new_line = False
+        # The line (in the file) the lambda we are after starts on, if python can tell us.
+        code_first_line = getattr(getattr(ast_source, "__code__", None), "co_firstlineno", None)
         while not saw_new_line:
+            lambda_starts_on_line = lambda_line + start_token.start[0]
             lda, saw_new_line = _get_lambda_in_stream(t_stream, start_token)
-            lambdas_on_a_line[func_name.string if func_name is not None else None].append(lda)
+            # A lambda that starts on another line can't be the one we were handed (we might
+            # have backed up to an earlier line to find the start of the expression).
+            if code_first_line is None or lambda_starts_on_line == code_first_line:
+                lambdas_on_a_line[func_name.string if func_name is not None else None].append(
+                    lda
+                )
 
             if saw_new_line:
                 break
